@@ -3,11 +3,17 @@ package cidx
 import (
 	"encoding/json"
 	"fmt"
+	"net/url"
+	"sort"
+	"strings"
 	"sync"
 	"testing"
 
 	"pgregory.net/rapid"
 
+	"github.com/jirenius/go-res/store/badgerstore"
+
+	"verifharness/internal/bdb"
 	"verifharness/internal/evid"
 )
 
@@ -419,5 +425,105 @@ func TestC14ConcurrentOrder(t *testing.T) {
 			}
 		}
 		ev.Case(len(log) > 2, evid.Hash("concorder", fmt.Sprint(cfg), fmt.Sprint(progs)), "concurrent-order")
+	})
+}
+
+// TestC13NilValues: an untyped store (values are map[string]interface{}) in which some
+// records are nil maps (stored as JSON null). The index Key function gives such a record a
+// key of its own ("nil"), so it is indexed like any other value: after every history and a
+// Flush the index queries equal the scan of the store.
+func TestC13NilValues(t *testing.T) {
+	ev := evid.For("C13")
+	rapid.Check(t, func(rt *rapid.T) {
+		db, _, cleanup, err := bdb.OpenTemp("cidxnil")
+		if err != nil {
+			rt.Fatalf("VERIF-INCONCLUSIVE: %v", err)
+		}
+		defer cleanup()
+		st := badgerstore.NewStore(db).SetPrefix(rapid.SampledFrom([]string{"", "pfx"}).Draw(rt, "prefix"))
+		key := func(v interface{}) []byte {
+			m, _ := v.(map[string]interface{})
+			if m == nil {
+				return []byte("nil")
+			}
+			a, _ := m["a"].(string)
+			if a == "" {
+				return nil
+			}
+			return []byte(a)
+		}
+		qs := badgerstore.NewQueryStore(st, func(qs *badgerstore.QueryStore, q url.Values) (*badgerstore.IndexQuery, error) {
+			return &badgerstore.IndexQuery{Index: qs.Index("ia"), KeyPrefix: []byte(q.Get("p")), Limit: -1}, nil
+		})
+		qs.AddIndex(badgerstore.Index{Name: "ia", Key: key})
+		model := map[string]string{} // id -> key ("" = not indexed)
+		exists := map[string]bool{}
+		n := rapid.IntRange(1, 25).Draw(rt, "nops")
+		nils := 0
+		for i := 0; i < n; i++ {
+			id := rapid.SampledFrom([]string{"1", "2", "3"}).Draw(rt, "id")
+			a := rapid.SampledFrom([]string{"a", "b", "n", "nil", "", "~nilmap", "~nilmap"}).Draw(rt, "a")
+			var v map[string]interface{}
+			k := ""
+			if a == "~nilmap" {
+				k = "nil"
+				nils++
+			} else {
+				v = map[string]interface{}{"a": a}
+				k = a
+			}
+			op := rapid.SampledFrom([]string{"create", "update", "update", "delete"}).Draw(rt, "k")
+			tx := st.Write(id)
+			var err error
+			switch op {
+			case "create":
+				err = tx.Create(v)
+			case "update":
+				err = tx.Update(v)
+			default:
+				err = tx.Delete()
+			}
+			_ = tx.Close()
+			if (err == nil) != ((op == "create") != exists[id]) {
+				rt.Fatalf("op %d %s %s: error %v, exists=%v (store contract, see C11)", i, op, id, err, exists[id])
+			}
+			if err != nil {
+				continue
+			}
+			if op == "delete" {
+				delete(model, id)
+				delete(exists, id)
+			} else {
+				model[id], exists[id] = k, true
+			}
+			if rapid.IntRange(0, 2).Draw(rt, "query") == 0 || i == n-1 {
+				qs.Flush()
+				for _, p := range []string{"", "n", "ni", "nil", "a", "b"} {
+					var want []string
+					type ent struct{ k, id string }
+					var es []ent
+					for id, k := range model {
+						if k != "" && strings.HasPrefix(k, p) {
+							es = append(es, ent{k, id})
+						}
+					}
+					sort.Slice(es, func(i, j int) bool {
+						if es[i].k != es[j].k {
+							return es[i].k < es[j].k
+						}
+						return es[i].id < es[j].id
+					})
+					for _, x := range es {
+						want = append(want, x.id)
+					}
+					res, err := qs.Query(url.Values{"p": {p}})
+					got, _ := res.([]string)
+					if err != nil || !sameIDs(got, want) {
+						rt.Fatalf("after op %d (%s %s, a=%q) and Flush: query with prefix %q returns %q (%v), the store gives %q (keys by id: %v; a record that is a nil map has the key \"nil\")", i, op, id, a, p, got, err, want, model)
+					}
+				}
+			}
+		}
+		ev.Case(nils > 0, evid.Hash("nilvalues", fmt.Sprint(model), n, nils), "nil-map-values")
 	})
 }
